@@ -98,6 +98,15 @@ def agree_stage(ctx):
         c.settings = [(k, v) for k, v in c.settings if k not in dict(G.FRIENDLY) and k != "max_iter"] + [("max_iter", "100")]
         if any(t.startswith("F7") for t in c.tags): continue
         hs.append(c)
+    # systematic single-block updates (a refresh forgotten in ONE formulation for ONE block shows up as a disagreement here)
+    for blk in ("P", "c", "A", "b", "G", "h", "lb", "ub"):
+        for reuse in (True, False):
+            for rep in range(1 if ctx.quick() else 6):
+                pb = G.gen_problem(rng, n=rng.randint(3, 5), p=rng.choice([1, 2]), m=rng.choice([2, 3]), bound_kinds=None, strict_convex=True, special=1.0)
+                pb2, names = G.perturb(rng, pb, {blk}, strong=True)
+                ops = [G.op_setup(pb), G.op_solve(), G.op_update(pb2, names, reuse=reuse), G.op_solve()]
+                hs.append(SS.Case("ab%s%d%d" % (blk, reuse, rep), [("max_iter", "100")], ops, {0: pb, 1: pb, 2: pb2, 3: pb2},
+                                  ["n%d" % pb["n"], "p%d" % pb["p"], "m%d" % pb["m"], "single-block", "u:%s:%d" % (blk, reuse)]))
     res2 = D.run_double(ctx, hs, name="c10ah", codes=("C10",))
     ref2 = res2.get("dense", {})
     for b, obs in res2.items():
